@@ -502,8 +502,11 @@ def _inp(net, shape, dt="int8", sc=0.05, zp=0):
     return net.input(list(shape), dt, sc, zp, name="input%d" % len(net.inputs))
 
 
+EXTRA_ARGS = {"conv_int8_asym_weights_forced": ["--force-symmetric-int-weights"]}
+
+
 def n_conv(stride=(1, 1), k=(3, 3), d=(1, 1), ish=(1, 16, 16, 4), dt="int8", padding="SAME", oc=4, bias_val=None, wfill=None, act="NONE",
-           wdtype=None, per_axis=False, tail=False):
+           wdtype=None, per_axis=False, tail=False, wzp=None):
     def f(rng):
         net = ng.Net("c")
         x = _inp(net, ish, dt)
@@ -516,6 +519,8 @@ def n_conv(stride=(1, 1), k=(3, 3), d=(1, 1), ish=(1, 16, 16, 4), dt="int8", pad
             w = o["inputs"][1]
             w.data = np.full(w.shape, wfill, dtype=w.data.dtype)
             w.zp = 0
+        if wzp is not None:
+            o["inputs"][1].zp = wzp
         if tail:
             y = ng.conv2d(net, rng, y, 4, (1, 1), per_axis=False)
         net.output(y)
@@ -706,6 +711,28 @@ NETS = [
     ("maxpool_k256x256", n_pool(MX, (256, 256), (1, 1), "VALID", ish=(1, 260, 260, 1)), MX, "filter product 65536"),
     ("maxpool_k256x257", n_pool(MX, (256, 257), (1, 1), "VALID", ish=(1, 260, 260, 1)), MX, "filter product 65792"),
     ("maxpool_s4_then_add", n_pool(MX, (2, 2), (4, 4), "VALID", tail=True), MX, "unsupported pool followed by a supported op"),
+    # pools with kernel == stride > 3 around the pre-pass fixup_pool_strides (it rewrites stride and padding of a pool whose
+    # window is the whole IFM BEFORE the supported-operator check): window == IFM in one dimension only, in both, swapped
+    ("maxpool_k4s4_ifm8x4", n_pool(MX, (4, 4), (4, 4), "VALID", ish=(1, 8, 4, 2)), MX, "kernel = stride = IFM width, IFM taller"),
+    ("maxpool_k4s4_ifm4x8", n_pool(MX, (4, 4), (4, 4), "VALID", ish=(1, 4, 8, 2)), MX, "kernel = stride = IFM height, IFM wider"),
+    ("maxpool_k4x6_ifm4x6", n_pool(MX, (4, 6), (4, 6), "VALID", ish=(1, 4, 6, 2)), MX, "global pool, non-square"),
+    ("maxpool_k6x4_ifm6x4", n_pool(MX, (6, 4), (6, 4), "VALID", ish=(1, 6, 4, 2)), MX, "global pool, non-square (other orientation)"),
+    ("maxpool_k4x6_ifm8x6", n_pool(MX, (4, 6), (4, 6), "VALID", ish=(1, 8, 6, 2)), MX, "window = IFM width only, non-square"),
+    ("maxpool_k6x4_ifm6x8", n_pool(MX, (6, 4), (6, 4), "VALID", ish=(1, 6, 8, 2)), MX, "window = IFM height only, non-square"),
+    ("maxpool_k6x4_ifm4x6_same", n_pool(MX, (6, 4), (6, 4), "SAME", ish=(1, 4, 6, 2)), MX, "window = IFM with height and width swapped"),
+    ("maxpool_k2s4_ifm4x4", n_pool(MX, (2, 2), (4, 4), "VALID", ish=(1, 4, 4, 2)), MX, "stride = IFM, kernel smaller"),
+    ("maxpool_k4s4_ifm4x4_same", n_pool(MX, (4, 4), (4, 4), "SAME", ish=(1, 4, 4, 2)), MX, "global pool, SAME padding"),
+    ("avgpool_k4s4_ifm8x4", n_pool(AV, (4, 4), (4, 4), "VALID", ish=(1, 8, 4, 2)), AV, "kernel = stride = IFM width, IFM taller"),
+    ("avgpool_k4s4_ifm4x8", n_pool(AV, (4, 4), (4, 4), "VALID", ish=(1, 4, 8, 2)), AV, "kernel = stride = IFM height, IFM wider"),
+    ("avgpool_k4x6_ifm4x6", n_pool(AV, (4, 6), (4, 6), "VALID", ish=(1, 4, 6, 2)), AV, "global pool, non-square"),
+    ("avgpool_k6x4_ifm6x4", n_pool(AV, (6, 4), (6, 4), "VALID", ish=(1, 6, 4, 2)), AV, "global pool, non-square (other orientation)"),
+    ("avgpool_k4x6_ifm8x6", n_pool(AV, (4, 6), (4, 6), "VALID", ish=(1, 8, 6, 2)), AV, "window = IFM width only, non-square"),
+    ("avgpool_k5x4_ifm5x8_same", n_pool(AV, (5, 4), (5, 4), "SAME", ish=(1, 5, 8, 2)), AV, "window = IFM height only, SAME padding, stride w 4"),
+    ("avgpool_k6x4_ifm4x6_same", n_pool(AV, (6, 4), (6, 4), "SAME", ish=(1, 4, 6, 2)), AV, "window = IFM with height and width swapped"),
+    ("avgpool_k4s4_ifm4x4_same", n_pool(AV, (4, 4), (4, 4), "SAME", ish=(1, 4, 4, 2)), AV, "global pool, SAME padding"),
+    # the other pre-pass that acts before the check: check_asymmetric_weights / fixup_asymmetric_weights
+    ("conv_int8_asym_weights", n_conv(wzp=3), "CONV_2D", "int8 weights with zero point 3 (check_asymmetric_weights runs before the check)"),
+    ("conv_int8_asym_weights_forced", n_conv(wzp=3), "CONV_2D", "same with --force-symmetric-int-weights"),
     ("avgpool_s3", n_pool(AV, (2, 2), (3, 3), "SAME"), AV, "stride 3"),
     ("avgpool_sh4", n_pool(AV, (2, 2), (4, 1), "VALID"), AV, "stride h 4"),
     ("avgpool_sw4_valid", n_pool(AV, (2, 2), (1, 4), "VALID"), AV, "stride w 4 VALID"),
@@ -961,6 +988,15 @@ def analyse(result, name, opcode):
     ti = tgt[0]
     listed = report_lines_for(opcode)
     info["in_report"] = listed is not None
+    if opcode in (MX, AV):
+        try:
+            pf = op_facts(s0, s0["operators"][ti])
+            ih, iw = pf["ifm"]["shape"][1], pf["ifm"]["shape"][2]
+            # the one case fixup_pool_strides is meant for: the window is the whole IFM and moves by itself
+            info["global_pool"] = bool(pf["kh"] == pf["sh"] == ih and pf["kw"] == pf["sw"] == iw)
+            info["ofm_hw"] = list(pf["ofm"]["shape"][1:3])
+        except Exception:
+            pass
     real, type_supported, _ = eval_listed_real(path, opcode)
     facts = op_facts(s0, s0["operators"][ti])
     rows = []
@@ -1074,7 +1110,21 @@ def random_nets(rng, n):
     return out
 
 
+def pool_items(a, key):
+    for k in ("global_pool", "ofm_hw"):
+        if k in a:
+            key[k] = a[k]
+    return key
+
+
 def classify(a):
+    v = classify0(a)
+    if v is None:
+        return None
+    return pool_items(a, v[0]), v[1]
+
+
+def classify0(a):
     """violation (key, what) of one analysed compilation, or None.  The documented reading of a sentence decides where one
     exists, the constraint function's own answer elsewhere (doc_all)."""
     net = a["net"]
@@ -1167,7 +1217,8 @@ def run(tier):
         else:
             accs = [rot[i % 6]] + ([rot[(i + 3) % 6]] if i % 5 == 0 else [])
         for acc in accs:
-            jobs.append({"tflite": path, "sha": sha, "args": ["--accelerator-config", acc], "capture": False, "family": "c16:" + name, "seed": "c16"})
+            jobs.append({"tflite": path, "sha": sha, "args": ["--accelerator-config", acc] + EXTRA_ARGS.get(name, []), "capture": False,
+                         "family": "c16:" + name, "seed": "c16"})
     results = compiles.run_all(jobs, timeout=900)
     placed = collections.Counter()
     inside = outside = 0
